@@ -43,7 +43,9 @@ TNext ==
   /\ LET r == Trace[l'] IN
        /\ cfg' = r.cfg
        /\ phase' = IF r.k = "boot" THEN (IF r.refused THEN "panicked" ELSE "measure")
-                   ELSE IF Readable(r) THEN "asleep" ELSE "opaque"
+                   \* a hung round (the driver's real-time watchdog gave up waiting for
+                   \* clk.Sleep) counts as a round: OneAdjust then sees its Do count
+                   ELSE IF Readable(r) \/ r.hung THEN "asleep" ELSE "opaque"
        /\ round' = r.rnd /\ ndo' = r.ndo
        /\ refOff' = r.ro /\ peerOff' = r.po /\ refCorr' = r.rc /\ peerCorr' = r.pc /\ corr' = r.corr
   /\ UNCHANGED <<refSlots, peerSlots, refDone, peerDone, adjLog, cur, hist>>
